@@ -624,6 +624,20 @@ fn run_bld(ws: &[&str]) -> Option<(String, Vec<String>)> {
         Some("1") => true,
         _ => return None,
     };
+    // `via=test`: the server is started through `TestServer::start_with_builder` (one worker) — the builder's limit
+    // must survive that path too. `resume=1|2`: at the plateau `ServerHandle::resume()` is called (2: after a
+    // `pause()`): no worker has released anything, so nothing more may be dispatched.
+    let via_test = match kv(ws, "via") {
+        None => false,
+        Some("test") if workers == 1 && !kill && kv(ws, "resume").is_none() => true,
+        _ => return None,
+    };
+    let resume: usize = match kv(ws, "resume") {
+        None | Some("0") => 0,
+        Some("1") => 1,
+        Some("2") => 2,
+        _ => return None,
+    };
     thread_local! { static INPROG: std::cell::Cell<usize> = const { std::cell::Cell::new(0) }; }
     let sh = Arc::new(Shared { maxper: AtomicUsize::new(0), started: AtomicUsize::new(0), done: AtomicUsize::new(0), release: AtomicBool::new(false), kill_next: AtomicBool::new(false), factory_calls: AtomicUsize::new(0) });
     let calls: Vec<String> = calls.iter().map(|c| c.to_string()).collect();
@@ -670,9 +684,7 @@ fn run_bld(ws: &[&str]) -> Option<(String, Vec<String>)> {
                 };
             }
             let shs = sh.clone();
-            let srv = b
-                .disable_signals()
-                .listen("verif-bld", lst, move || {
+            let factory = move || {
                     let sh = shs.clone();
                     sh.factory_calls.fetch_add(1, Ordering::SeqCst); // one call per worker (re)start
                     actix_service::fn_service(move |stream: actix_rt::net::TcpStream| {
@@ -701,11 +713,21 @@ fn run_bld(ws: &[&str]) -> Option<(String, Vec<String>)> {
                             Ok::<_, ()>(())
                         }
                     })
-                })
-                .map_err(|e| format!("listen: {e}"))?
-                .run();
-            let handle = srv.handle();
-            let srv_task = actix_rt::spawn(srv);
+                };
+            let mut test_server = None;
+            let mut running = None;
+            let addr = if via_test {
+                drop(lst);
+                let ts = actix_server::TestServer::start_with_builder(b, factory);
+                let a = ts.addr();
+                test_server = Some(ts);
+                a
+            } else {
+                let srv = b.disable_signals().listen("verif-bld", lst, factory).map_err(|e| format!("listen: {e}"))?.run();
+                let handle = srv.handle();
+                running = Some((handle, actix_rt::spawn(srv)));
+                addr
+            };
             let mut clients = vec![];
             if kill {
                 // C02 speaks of fault-free operation: the connection that discovers a dead worker is force-sent to
@@ -764,6 +786,14 @@ fn run_bld(ws: &[&str]) -> Option<(String, Vec<String>)> {
                 tokio::time::sleep(Duration::from_millis(10)).await;
             }
             tokio::time::sleep(Duration::from_millis(400)).await;
+            if let (true, Some((handle, _))) = (resume > 0, running.as_ref()) {
+                if resume == 2 {
+                    handle.pause().await;
+                    tokio::time::sleep(Duration::from_millis(150)).await;
+                }
+                handle.resume().await;
+                tokio::time::sleep(Duration::from_millis(500)).await;
+            }
             let started = sh.started.load(Ordering::SeqCst);
             let mut clients: std::collections::VecDeque<_> = clients.into();
             for k in 0..rel.min(want) {
@@ -788,8 +818,12 @@ fn run_bld(ws: &[&str]) -> Option<(String, Vec<String>)> {
             }
             let done = sh.done.load(Ordering::SeqCst);
             drop(clients);
-            let _ = tokio::time::timeout(Duration::from_secs(30), handle.stop(true)).await;
-            let _ = tokio::time::timeout(Duration::from_secs(30), srv_task).await;
+            if let Some((handle, srv_task)) = running {
+                let _ = tokio::time::timeout(Duration::from_secs(30), handle.stop(true)).await;
+                let _ = tokio::time::timeout(Duration::from_secs(30), srv_task).await;
+            }
+            // (dropping a TestServerHandle stops its server and joins its thread)
+            drop(test_server);
             Ok((sh.maxper.load(Ordering::SeqCst).max(maxper), started, done))
         })
     })
@@ -1981,6 +2015,16 @@ fn gen(a: &Args) {
         for f in fixed {
             writeln!(w, "{f}").unwrap();
         }
+        // the limit survives `TestServer::start_with_builder` (seed12 C02-23 re-set it there), and a `resume()` at the
+        // plateau — with or without a `pause()` before it — dispatches nothing to the saturated workers (seed12 C02-24
+        // queued an availability notice for every worker on Resume)
+        writeln!(w, "bld workers=1 limit=2 n=6 calls=workers,limit via=test").unwrap();
+        writeln!(w, "bld workers=1 limit=1 n=3 calls=maxconn,blocking:4,workers via=test").unwrap();
+        writeln!(w, "bld workers=2 limit=2 n=8 calls=workers,limit resume=1").unwrap();
+        writeln!(w, "bld workers=2 limit=1 n=5 calls=limit,workers resume=2").unwrap();
+        writeln!(w, "bld workers=2 limit=1 n=5 calls=limit,workers via=test").unwrap();
+        writeln!(w, "bld workers=1 limit=1 n=3 calls=limit,workers via=test resume=1").unwrap();
+        writeln!(w, "bld workers=1 limit=1 n=3 calls=limit,workers resume=3").unwrap();
         writeln!(w, "bld workers=2 limit=1 n=4 calls=workers,limit kill=1").unwrap();
         writeln!(w, "bld workers=1 limit=2 n=4 calls=limit,workers,blocking:4 kill=1").unwrap();
         writeln!(w, "bld workers=1 limit=1 n=1 calls=limit,workers kill=2").unwrap();
